@@ -4151,3 +4151,76 @@ mod tests {
         }
     }
 }
+
+#[cfg(feature = "verif-hooks")]
+impl Connection {
+    /// Read-only snapshot of internal state for an external verification harness
+    pub fn verif_probe(&self) -> crate::verif::VerifProbe {
+        let data = &self.spaces[SpaceId::Data];
+        crate::verif::VerifProbe {
+            state: match self.state {
+                State::Handshake(_) => 0,
+                State::Established => 1,
+                State::Closed(_) => 2,
+                State::Draining => 3,
+                State::Drained => 4,
+            },
+            highest_space: self.highest_space as u8,
+            bytes_in_flight: self.path.in_flight.bytes,
+            ack_eliciting_in_flight: self.path.in_flight.ack_eliciting,
+            prev_path_bytes_in_flight: self.prev_path.as_ref().map(|(_, p)| p.in_flight.bytes),
+            congestion_window: self.path.congestion.window(),
+            loss_probes: [
+                self.spaces[SpaceId::Initial].loss_probes,
+                self.spaces[SpaceId::Handshake].loss_probes,
+                self.spaces[SpaceId::Data].loss_probes,
+            ],
+            pto: [
+                self.pto(SpaceId::Initial),
+                self.pto(SpaceId::Handshake),
+                self.pto(SpaceId::Data),
+            ],
+            pto_count: self.pto_count,
+            path_validated: self.path.validated,
+            path_total_sent: self.path.total_sent,
+            path_total_recvd: self.path.total_recvd,
+            path_remote: Some(self.path.remote),
+            prev_path_remote: self.prev_path.as_ref().map(|(_, p)| p.remote),
+            current_mtu: self.path.current_mtu(),
+            mtu_probe_in_flight: self.path.mtud.in_flight_mtu_probe(),
+            sent_packets: [
+                self.spaces[SpaceId::Initial].sent_packets.range(..).count(),
+                self.spaces[SpaceId::Handshake].sent_packets.range(..).count(),
+                self.spaces[SpaceId::Data].sent_packets.range(..).count(),
+            ],
+            lost_packets: [
+                self.spaces[SpaceId::Initial].lost_packets.len(),
+                self.spaces[SpaceId::Handshake].lost_packets.len(),
+                self.spaces[SpaceId::Data].lost_packets.len(),
+            ],
+            next_packet_number: [
+                self.spaces[SpaceId::Initial].next_packet_number,
+                self.spaces[SpaceId::Handshake].next_packet_number,
+                self.spaces[SpaceId::Data].next_packet_number,
+            ],
+            crypto_buffered: [
+                self.spaces[SpaceId::Initial].crypto_stream.verif_buffered().0,
+                self.spaces[SpaceId::Handshake].crypto_stream.verif_buffered().0,
+                self.spaces[SpaceId::Data].crypto_stream.verif_buffered().0,
+            ],
+            path_responses: self.path_responses.verif_len(),
+            pending_retire_cids: data.pending.retire_cids.len(),
+            pending_new_cids: data.pending.new_cids.len(),
+            datagram_recv_buffered: self.datagrams.recv_buffered,
+            datagram_incoming: self.datagrams.incoming.len(),
+            datagram_outgoing_total: self.datagrams.outgoing_total,
+            datagram_outgoing: self.datagrams.outgoing.len(),
+            authentication_failures: self.authentication_failures,
+            total_authed_packets: self.total_authed_packets,
+            key_phase: self.key_phase,
+            idle_timeout: self.idle_timeout,
+            app_limited: self.app_limited,
+            streams: self.streams.verif_probe(),
+        }
+    }
+}
